@@ -151,3 +151,43 @@ func VerifHandleDump(fm *FileHandleMap) map[uint64]string {
 
 func VerifFileMap(n *AbsfsNFS) *FileHandleMap       { return n.fileMap }
 func VerifSetMaxHandles(n *AbsfsNFS, max int)        { n.fileMap.Lock(); n.fileMap.maxHandles = max; n.fileMap.Unlock() }
+
+// ---- caches (C21) ----
+
+// VerifAttrCacheOrder returns the recency order (most recent first); negative entries carry a "!" suffix.
+func VerifAttrCacheOrder(c *AttrCache) []string {
+	c.mu.RLock()
+	defer c.mu.RUnlock()
+	var out []string
+	for e := c.accessList.Front(); e != nil; e = e.Next() {
+		k := e.Value.(string)
+		if ca, ok := c.cache[k]; ok && ca.isNegative {
+			out = append(out, k+"!")
+		} else if ok {
+			out = append(out, k)
+		} else {
+			out = append(out, k+"?") // in the list but not in the map: never expected
+		}
+	}
+	if len(out) != len(c.cache) {
+		out = append(out, "#map-size-differs")
+	}
+	return out
+}
+
+func VerifDirCacheOrder(c *DirCache) []string {
+	c.mu.RLock()
+	defer c.mu.RUnlock()
+	var out []string
+	for e := c.accessList.Front(); e != nil; e = e.Next() {
+		out = append(out, e.Value.(string))
+	}
+	if len(out) != len(c.entries) {
+		out = append(out, "#map-size-differs")
+	}
+	return out
+}
+
+func VerifIsChildOf(p, d string) bool { return isChildOf(p, d) }
+func VerifAttrCache(n *AbsfsNFS) *AttrCache { return n.attrCache }
+func VerifDirCache(n *AbsfsNFS) *DirCache   { return n.dirCache }
